@@ -416,13 +416,29 @@ theorem accepted_subset_in_store (kp store : List Peer) (sp : StartParams) (hk :
     simp only [peersIntersection, List.mem_filter, List.contains_iff_mem] at this
     exact this.2
 
+/-- **the hypotheses of `sortParties_spec`, derived.** For a relayer that holds a key share (duplicate-free committee
+    in the share, duplicate-free peer store), ACCEPTED start parameters make the resharing order well defined: no
+    panic, no nil entry, exactly `sortPartiesSpec`. (A relayer WITHOUT a key share accepts any subset — `validate_iff`
+    with `kp = []` — and for it the hypotheses are not derivable: `sortParties_outside_panics`.) -/
+theorem accepted_params_sortParties (kp store : List Peer) (sp : StartParams) (hk : kp ≠ []) (hkp : kp.Nodup)
+    (hst : store.Nodup) (h : validate kp store sp = true) :
+    sortParties (partiesFromPeers store) (partiesFromPeers sp.oldSubset) =
+      some ((sortPartiesSpec store sp.oldSubset).map some) := by
+  have hperm : sp.oldSubset ~ peersIntersection kp store := by
+    rcases ((validate_iff kp store sp).1 h).2.2 with h' | h'
+    · exact absurd h' hk
+    · exact h'
+  have hnd : sp.oldSubset.Nodup := hperm.symm.nodup_iff.1 (hkp.filter _)
+  exact sortParties_spec store sp.oldSubset hst hnd (accepted_subset_in_store kp store sp hk h)
+
 /-- the hypotheses of `honest_params_accepted` are satisfiable -/
 example : validate [[2], [1]] [[1], [2], [3]] (startParams [[1], [2]] 1 [[1], [2], [3]]) = true :=
   honest_params_accepted [[1], [2]] [[2], [1]] [[1], [2], [3]] 1 (by decide) (by decide) (by decide)
 
 /-! ### (i) release rule and readiness -/
 
-/-- ECDSA: the signature is released iff the process is the coordinator's -/
+/-- ECDSA: the signature is released iff the process is the coordinator's (definitional: unfolds `releaseECDSA`; the tie
+    to the code is op `release` / `release2` and Oblig/C08) -/
 theorem release_iff_coordinator (c : Bool) : releaseECDSA c = .sig ↔ c = true := by
   cases c <;> simp [releaseECDSA]
 
@@ -433,7 +449,7 @@ theorem released_count (flags : List Bool) :
     funext c; cases c <;> rfl
   rw [this]
 
-/-- a session starts exactly when threshold+1 ready peers hold a share of the key -/
+/-- a session starts exactly when threshold+1 ready peers hold a share of the key (definitional: unfolds `ready`) -/
 theorem ready_iff (kp rdy : List Peer) (thr : Int) :
     ready kp thr rdy = true ↔ ((rdy.filter (kp.contains ·)).length : Int) = thr + 1 := by
   simp [ready, readyParticipants]
@@ -466,7 +482,8 @@ theorem rerun_role_moved_away (pre : List Bool) : releaseAfterRuns (pre ++ [fals
   rw [releaseAfterRuns_last]; simp [releaseECDSA]
 
 /-- the library is told the OLD threshold of the start parameters for the old sharing and the process's own NEW
-    threshold for the new one — whatever their order (raising, lowering, equal) -/
+    threshold for the new one — whatever their order (raising, lowering, equal). Definitional (`rfl`): it documents the
+    model; that the CODE passes these arguments is Oblig/C08 `gen_reshare_args` and op `reshareparams` -/
 theorem reshareParams_thresholds (kp store : List Peer) (thr nthr : Int) :
     (reshareParams (startParams kp thr store) nthr store).oldThreshold = thr ∧
     (reshareParams (startParams kp thr store) nthr store).newThreshold = nthr ∧
@@ -565,7 +582,8 @@ theorem signingRunStore_current (self : Peer) (st : PartyStore) (subset : List P
   exact sortPeers_nodup subset hnd
 
 /-- the refreshed / generated share is stored with the NEW committee (the peer store) and the new threshold, whatever
-    committee the old share listed — also none, for a relayer that joins -/
+    committee the old share listed — also none, for a relayer that joins. Definitional (`rfl`); tied by op `endstore`
+    and the real refresh runs -/
 theorem storedAtEnd_committee (old old' store : List Peer) (nthr : Int) :
     storedAtEnd old nthr store = (nthr, store) ∧ storedAtEnd old nthr store = storedAtEnd old' nthr store :=
   ⟨rfl, rfl⟩
